@@ -488,6 +488,10 @@ impl GitignoreBuilder {
             if line.as_bytes().last() == Some(&b'\\') {
                 line = &line[..line.len() - 1];
             }
+            // Nothing but the (escaped) slash: there is no pattern.
+            if line.is_empty() {
+                return Ok(self);
+            }
         }
         glob.actual = line.to_string();
         // If there is a literal slash, then this is a glob that must match the
